@@ -310,5 +310,23 @@ def static_finding(r):
 
 def replay(ctx, path):
     case = json.load(open(path))
-    print(json.dumps(case, indent=1)[:2500])
+    comps = {"A": drive.get_compiler("stmt"), "B": drive.get_compiler("stmt", fresh=True)}
+    _JOB.update(comps=comps, env=prog.Env(comps["A"]), budget=512)
+    cs, items = all_items("thorough")
+    for it in items:
+        if it[1].text == case.get("caller") and it[3] == case.get("k_temporaries_before") and it[4] == case.get("instance"):
+            r = work(it)
+            r2 = work(it)
+            if (r["status"], r.get("first_bad")) != (r2["status"], r2.get("first_bad")):
+                raise core.HarnessError("replaying the same case twice gave different observations")
+            print(json.dumps({k: v for k, v in r.items() if k != "routines"}, indent=1, default=str)[:2500])
+            fids = sorted(set(deviations.FINDING_OF.get(x, x) for x in (r.get("explained_by") or [])))
+            if r["status"] == "agree" and not r.get("leaks") and not r.get("static"):
+                return 0
+            if r["status"] == "disagree" and fids and all(f in ctx.known for f in fids) and not r.get("static"):
+                print("KNOWN-FINDING: property=%s %s" % (ctx.pid, " ".join(fids)))
+                return 0
+            print("VIOLATION property=%s replay=%s" % (ctx.pid, path))
+            return 1
+    print("case not in the space any more")
     return 0
